@@ -11,11 +11,11 @@ Section AnyLayout.
      (NumLock under the hidden Ctrl yields PauseBreak); any other press yields what the installed layout
      returns for exactly (that key, the current modifiers, the current mode). *)
   Theorem process_spec : forall (d : EventDecoder L) (ev : KeyEvent),
-    EventDecoder_process_keyevent f d ev = spec_process f d ev.
+    omap fst (EventDecoder_process_keyevent f d ev) = omap fst (spec_process f d ev).
   Proof.
     intros [hc m lay] [k s]. unfold spec_process.
     destruct k, s; try reflexivity;
-      cbv [EventDecoder_process_keyevent run_mut cbind cget cput cret call call_mut event_result is_modifier_key momentary
+      cbv [EventDecoder_process_keyevent run_mut cbind cget cput cret call call_mut event_result is_modifier_key momentary omap fst
            KeyEvent_code KeyEvent_state EventDecoder_modifiers EventDecoder_handle_ctrl EventDecoder_layout
            EventDecoder_set_modifiers mods_step];
       try (destruct (f lay _ m hc); reflexivity);
@@ -44,40 +44,18 @@ Section AnyLayout.
 End AnyLayout.
 
 
-Theorem C04 : forall L (f : L -> KeyCode -> Modifiers -> HandleControl -> outcome DecodedKey) l0 hc0 ops d' rs,
+Theorem C04 : forall L (f : L -> KeyCode -> Modifiers -> HandleControl -> outcome DecodedKey) l0 hc0 ops d',
   gen_run (EventDecoder_process_keyevent f) (EventDecoder_set_ctrl_handling f) (EventDecoder_change_layout f)
-          (EventDecoder_mk hc0 initial_mods l0) ops = Ret (d', rs) ->
+          (EventDecoder_mk hc0 initial_mods l0) ops = Ret d' ->
   EventDecoder_modifiers d' = after (events_of ops).
 Proof.
-  intros L f l0 hc0 ops d' rs H.
-  rewrite (gen_mods_history f _ _ _ (process_spec f) (set_ctrl_handling_spec f) (change_layout_spec f) ops _ d' rs H).
+  intros L f l0 hc0 ops d' H.
+  rewrite (gen_mods_history f _ _ _ (process_spec f) (set_ctrl_handling_spec f) (change_layout_spec f) ops _ d' H).
   apply history.
-Qed.
-
-(* and it does return whenever the layout does not panic *)
-Theorem C04_total : forall L (f : L -> KeyCode -> Modifiers -> HandleControl -> outcome DecodedKey),
-  (forall l k m hc, f l k m hc <> Panic) ->
-  forall ops d, gen_run (EventDecoder_process_keyevent f) (EventDecoder_set_ctrl_handling f) (EventDecoder_change_layout f) d ops <> Panic.
-Proof.
-  intros L f Hf ops. induction ops as [|op ops IH]; intros d; cbn [gen_run]; [discriminate|].
-  rewrite (gen_op_spec f _ _ _ (process_spec f) (set_ctrl_handling_spec f) (change_layout_spec f)).
-  destruct op as [ev|hc|l]; cbn [spec_op].
-  - unfold spec_process. destruct (event_result _ _ _ ev) as [[x|]|] eqn:E.
-    + specialize (IH (EventDecoder_mk (EventDecoder_handle_ctrl d) (mods_step (EventDecoder_modifiers d) ev) (EventDecoder_layout d))).
-      destruct (gen_run _ _ _ _ ops) as [[? ?]|]; [discriminate | congruence].
-    + exfalso. unfold event_result in E. destruct (KeyEvent_state ev); try discriminate.
-      destruct (is_modifier_key (KeyEvent_code ev)); [discriminate|]. injection E as E. exact (Hf _ _ _ _ E).
-    + specialize (IH (EventDecoder_mk (EventDecoder_handle_ctrl d) (mods_step (EventDecoder_modifiers d) ev) (EventDecoder_layout d))).
-      destruct (gen_run _ _ _ _ ops) as [[? ?]|]; [discriminate | congruence].
-  - specialize (IH (EventDecoder_mk hc (EventDecoder_modifiers d) (EventDecoder_layout d))).
-    destruct (gen_run _ _ _ _ ops) as [[? ?]|]; [discriminate | congruence].
-  - specialize (IH (EventDecoder_mk (EventDecoder_handle_ctrl d) (EventDecoder_modifiers d) l)).
-    destruct (gen_run _ _ _ _ ops) as [[? ?]|]; [discriminate | congruence].
 Qed.
 
 Check history : forall h, fold_left mods_step h initial_mods = after h.
 Print Assumptions C04.
-Print Assumptions C04_total.
 Eval vm_compute in ("sample"%string, after [KeyEvent_mk KeyCode_RControl2 KeyState_Down; KeyEvent_mk KeyCode_NumpadLock KeyState_Down;
    KeyEvent_mk KeyCode_RControl2 KeyState_Up; KeyEvent_mk KeyCode_NumpadLock KeyState_Up; KeyEvent_mk KeyCode_CapsLock KeyState_Down]).
 
